@@ -19,6 +19,8 @@ def _level_name(base, n):
 
 
 def gen_metrics(rnd, n_einsums=None, force=None):
+    if n_einsums in (None, 1) and force is None and rnd.random() < 0.12:
+        return gen_merger(rnd)
     pool = ["M", "N", "K", "J"]
     nr = rnd.randint(2, 3)
     perm = rnd.sample(pool, nr)           # global rank precedence (concordant everywhere)
@@ -142,6 +144,7 @@ def gen_metrics(rnd, n_einsums=None, force=None):
     # ---- bindings
     b_lines = ["bindings:"]
     used_conf = None
+    prefer = {}           # intersector -> rank bound in the previous Einsum
     for i, ei in enumerate(einfo):
         out = ei["out"]
         if used_conf is None or (nconf > 1 and rnd.random() < 0.4):
@@ -214,6 +217,11 @@ def gen_metrics(rnd, n_einsums=None, force=None):
                 if not ok:
                     break
                 r = ok[0]
+                if prefer.get((cname, c)) in ok and rnd.random() < 0.7:
+                    # the same intersector on the same rank as in the previous Einsum
+                    r = prefer[(cname, c)]
+                    ei["same_rank_intersector"] = True
+                prefer[(cname, c)] = r
                 cands.remove(r)
                 holders = [t for t in ei["inputs"] if r in decl[t]]
                 lines.append("    - rank: %s" % r)
@@ -242,6 +250,8 @@ def gen_metrics(rnd, n_einsums=None, force=None):
     tags = ["metrics", "m-einsums%d" % n, "m-configs%d" % nconf]
     if any("lf_leader_not_first" in ei for ei in einfo):
         tags.append("lf-leader-not-first")
+    if any("same_rank_intersector" in ei for ei in einfo):
+        tags.append("m-same-rank-intersector-across-einsums")
     if any("multi_rank_isect" in ei for ei in einfo):
         tags.append("m-multi-rank-intersector")
     for cn in confs.values():
@@ -267,3 +277,53 @@ def plain_of(spec):
     s.extra = ""
     s.spacetime = None
     return s
+
+
+def gen_merger(rnd):
+    """Merger family (gamma-like): an input whose partitioned ranks must be
+    swizzled for the loop order, with a Merger bound to exactly that swizzle
+    (init-ranks -> final-ranks).  Static (shape) or dynamic (occupancy) split."""
+    X, K, Y = rnd.sample(["M", "K", "J", "N"], 3)
+    decl = {"A": [X, K, Y]}
+    out_ranks = [X] if rnd.random() < 0.6 else [X, Y]
+    facs = [_acc("A", decl["A"])]
+    if rnd.random() < 0.5:
+        br = rnd.sample([X, K, Y], rnd.randint(1, 2))
+        br = [r for r in [X, K, Y] if r in br]
+        decl["B"] = br
+        facs.append(_acc("B", br))
+        rnd.shuffle(facs)
+    decl["Z"] = out_ranks
+    e = Einsum(_acc("Z", out_ranks), [Term("times", facs)])
+    dynamic = rnd.random() < 0.5
+    sz = rnd.randint(2, 4)
+    part = "uniform_occupancy(A.%d)" % sz if dynamic else "uniform_shape(%d)" % sz
+    lo = [X, K + "1", Y, K + "0"]
+    if dynamic:
+        init, final = [K + "1", K + "0", Y], [K + "1", Y, K + "0"]
+    else:
+        init, final = [X, K + "1", K + "0", Y], [X, K + "1", Y, K + "0"]
+    ninst = rnd.choice([1, 4])
+    freq = rnd.choice([1000, 2000])
+    arch = ["architecture:", "  accel:", "  - name: %s" % _level_name("System", 1), "    attributes:",
+            "      clock_frequency: %d" % freq, "    subtree:",
+            "    - name: %s" % _level_name("PE", ninst), "      local:",
+            "      - name: Merge0", "        class: Merger", "        attributes:",
+            "          inputs: %s" % rnd.choice(["16", "inf"]), "          comparator_radix: 16",
+            "      - name: Mul0", "        class: compute", "        attributes:",
+            "          type: mul"]
+    b = ["bindings:", "  Z:", "  - config: accel", "    prefix: tmp/Z", "  - component: Merge0",
+         "    bindings:", "    - tensor: A", "      init-ranks: [%s]" % ", ".join(init),
+         "      final-ranks: [%s]" % ", ".join(final), "  - component: Mul0", "    bindings:",
+         "    - op: mul"]
+    fmt = ["format:"]
+    for t, rs in decl.items():
+        fmt += ["  %s:" % t, "    default:", "      rank-order: [%s]" % ", ".join(rs)]
+        for r in rs:
+            fmt += ["      %s:" % r, "        format: C", "        pbits: 64"]
+    spec = Spec(decl, [e], partitioning={"Z": {K: [part]}}, loop_order={"Z": lo},
+                spacetime={"Z": {"space": [], "time": list(lo)}},
+                extra="\n".join(arch + b + fmt) + "\n",
+                tags=["metrics", "m-merger", "m-merger-dynamic" if dynamic else "m-merger-static",
+                      "m-einsums1", "m-configs1"])
+    return spec
